@@ -414,14 +414,20 @@ func TestC13(t *testing.T) {
 		}
 
 		// ---- cache isolation ----
-		tc, err := cache.NewTableCache(f.dbModel, nil, nil)
+		handed := kit.DeepCopy(pristine)
+		how := rapid.SampledFrom([]string{"Create", "Update", "Populate2", "InitialData"}).Draw(t, "writepath")
+		var initial cache.Data
+		if how == "InitialData" {
+			// the model is handed over as the initial contents of the cache
+			initial = cache.Data{f.table: {uuid: handed}}
+		}
+		tc, err := cache.NewTableCache(f.dbModel, initial, nil)
 		if err != nil {
 			t.Fatalf("cache: %v", err)
 		}
 		rc := tc.Table(f.table)
-		handed := kit.DeepCopy(pristine)
-		how := rapid.SampledFrom([]string{"Create", "Update", "Populate2"}).Draw(t, "writepath")
 		switch how {
+		case "InitialData":
 		case "Create":
 			if err := rc.Create(uuid, handed, true); err != nil {
 				fail("cache.apply-error", "Create: %v", err)
